@@ -183,6 +183,82 @@ CLAIMED = {
         "log contents are not compared with the real ScopeDescription entries.",
         "Lean 4 proof (erasure by mutual structural induction) + two-build correspondence stream",
     ),
+    "C01": (
+        "DESIGN.md 5 (C01)",
+        "Lean 4 theorem roundtrip_partial about the UPER mirror: WF t v -> enc t v = ok bits -> dec t (pre ++ bits ++ post) |pre| = "
+        "ok (v, |pre| + |bits|) for arbitrary pre/post, by mutual structural induction over Ty/Fields (unbounded nesting, component "
+        "count, OCTET/BIT/UTF8 string lengths through the fragment recursion), and many_roundtrip_partial for values written "
+        "back-to-back into one writer. WF excludes exactly: list/restricted-string values with >= 16384 items (known finding "
+        "F-frag: symbolic lemma frag_ignored shows the mismatch for every n >= 16K not a multiple of 16K), open-type contents of "
+        ">= 16384 octets, mandatory SEQUENCE OF extension additions (hand-written descriptors only), integers outside their Rust "
+        "type. The full statement is kept and refuted on witnesses.",
+        "Trusted: Lean kernel, standard axioms; compositional mirror validated by the round-trip stream over all zoo types "
+        "(valid values, several messages per writer, long values in every fragment class) with the oracle decode(encode v) = v "
+        "and remaining = 0 on the real crate.",
+        "Lean 4 proof (mutual structural induction, position lemmas, L1 round trips from C10) + round-trip correspondence stream",
+    ),
+    "C02": (
+        "DESIGN.md 5 (C02), 4",
+        "Lean 4 theorems conform_write_partial (NoKnownDeviation t -> InRange t v -> enc t v = ok bits -> X691.encode t v = some "
+        "bits, by mutual structural induction; open types conform for every content length) and conform_read_of_written, against "
+        "the independent X.691 specification X691/Encode.lean. NoKnownDeviation is a decidable predicate on the type: no (lb..MAX) "
+        "/ (MIN..ub) INTEGER, no length determinant with ub >= 64K, <= 64 additions; InRange: lists/strings < 16384 items. Each "
+        "excluded class has a refutation of the full statement on a witness and is a listed known finding (F-64k, F-semi, F-frag, "
+        "F-index-order). Not proved: the reader on canonical encodings the writer refuses (late presence pattern) - covered by the "
+        "stream only.",
+        "Trusted: Lean kernel, standard axioms; the X.691 transcription (from memory, cross-checked by pinned vectors); the "
+        "implementation's bits are compared with the specification directly (the driver appends X691.encode's result to its "
+        "answer), so C02 does not rest on the mirror; the reader is run on the specification's bits, incl. every presence pattern "
+        "of every zoo shape.",
+        "Lean 4 proof (refinement of the mirror to the X.691 specification) + specification-vs-implementation stream",
+    ),
+    "C05": (
+        "DESIGN.md 5 (C05)",
+        "Lean 4 theorems about the UPER mirror for V2 = V1 + appended extension additions / alternatives / values: enum_fwd, "
+        "enum_bwd_known, enum_bwd_unknown and choice_* (unknown values give InvalidChoiceIndex, never a value); seq_fwd_partial "
+        "(a V1 encoding decodes under V2 to the same components with the new additions absent/default, ending at |pre|+|bits|) "
+        "and seq_bwd_partial (a V2 encoding decodes under V1 to V1's components, unknown additions skipped through skipUnknown, "
+        "same end position), for any V1 with its own additions. Hypothesis WF (as C01). bwd became true with fix 91e31d8.",
+        "Trusted: Lean kernel, standard axioms; mirror validated by the cross-version stream (families MsgV1-3, Chain0-8, ChoV1-3, "
+        "EnuV1-3, WrapV1-3 in both directions with a sentinel appended after the message).",
+        "Lean 4 proof (continuation lemmas over common components, skipUnknown) + cross-version correspondence stream",
+    ),
+    "C14": (
+        "DESIGN.md 5 (C14)",
+        "Lean 4 theorems: tokenizer_panics_iff (exactly the documented unterminated-block-comment condition), parser_terminates "
+        "(for EVERY token list the recursive descent mirror never runs out of fuel = |tokens|+1, i.e. every recursive step consumes "
+        "a token; the fuel is unobservable), parser_total, front_end_total (text -> tokens -> bridge -> parser), resolver and "
+        "tag resolver total on acyclic imports/references (partial; divergence on cycles proved, known findings). The Rust panic "
+        "sites are tabulated in the property file; the fuzz streams (1-4 char/token mutations of printed modules, token soups) "
+        "check on the real front end that no panic/abort occurs outside the listed finding classes, and that every error carries "
+        "the offending token at its real position.",
+        "Trusted: Lean kernel, standard axioms; the parser mirror has no panic outcome of its own (unwrap/index sites are argued "
+        "in a comment table and exercised by the fuzz streams); to_rust/to_protobuf are observed, not modelled.",
+        "Lean 4 proof (termination invariant by induction on fuel) + fuzz correspondence streams",
+    ),
+    "C17": (
+        "DESIGN.md 5 (C17)",
+        "Lean 4 theorems about a mirror of protocol/protobuf and ProtobufWriter/Reader on Ty/Val: varint, zig-zag, tag, bytes, bool "
+        "round trips for all 64-bit values; backends_agree (growable vs fixed slice: same bytes or nospace); counter_agree_partial; "
+        "proto_roundtrip_partial: rtOK t v -> encode = ok bytes -> decode = ok v' and protoEq t v v' by structural induction over "
+        "all type kinds (rtOK excludes exactly the defective shapes, each refuted on a witness and listed as known finding); "
+        "proto_reader_total_fixed (reader never panics; applies since the three fix: commits, selected by the translator flag).",
+        "Trusted: Lean kernel, standard axioms; mirror validated by the `proto` streams (round trips over all zoo types, the crate's "
+        "ProtobufEq implementations, hostile bytes); the default-equivalence relation for generated types is decided by the oracle "
+        "from peq.rs because the generated types do not derive ProtobufEq.",
+        "Lean 4 proof (wire primitives, counter discipline, structural round trip) + correspondence streams",
+    ),
+    "C18": (
+        "DESIGN.md 5 (C18)",
+        "Lean 4 theorems about a model of the .proto generator's numbering (Proto/Schema.lean) vs the writer mirror: schema_row, "
+        "writer_rows, schema_wire_types_agree, schema_oneof_agree, schema_wire_agree_partial (number and wire type of every written "
+        "field equal the schema row when no NULL precedes the component; the NULL deviation refuted on a witness). The tie is "
+        "translation validation: real bytes + the real generated .proto are decoded by protoc 3.21 (and a built-in Python wire "
+        "decoder) and compared with the value; protoc also validates each .proto file. Five listed known findings (NULL numbering, "
+        "SET order, extensible integer width, two invalid schema printings).",
+        "Trusted: Lean kernel, standard axioms; protoc as independent decoder (fallback: built-in decoder, recorded in the evidence).",
+        "Lean 4 proof about numbering + translation validation with protoc",
+    ),
 }
 
 NOT_YET = "model and first theorem not built yet in this revision (work in progress; see DESIGN.md 8 for the order of work)"
